@@ -232,4 +232,22 @@ PROPS = {
         "assumptions": ['source-visible panics only: arithmetic overflow (round + 1 at 2^64-1 needs a quorum-signed certificate of that round) and allocation failure are outside the model', 'internal-channel expect()s fire only if a sibling task already died; the theorems show no task dies', 'the shapes of three panic-prone statements (F2-F4) are read from the source on every run (Generated/Switches.lean)'],
         "explanation": "Panics are values of the models: the node model's `panic` field (theorem: none in every reachable state, for arbitrary inputs incl. cross-component digests) and the three-way decoder results (theorem: never `panic` for any byte string). Engines: codec (every decoder vs the real crates under catch_unwind), cons (garbage frames / sync requests in protocol runs, panic hook), fuzz (all three ports of a real node, then functional probes).",
     },
+    "C01": {
+        "lean_modules": ["HotstuffModel.Properties.C01"],
+        "engines": [{"name": "cons"}],
+        "level": "proof",
+        "trusted_base": TB_COMMON + [
+            "ideal signatures and collision-free digests (DESIGN 3.4): ed25519 and SHA-512 are modelled, not verified",
+            "the global model composes per-node models by an arbitrary scheduler and an arbitrary network (any event to any honest node, subject only to unforgeability of honest signatures); the per-node model is tied to /repo by the lock-step cons engine",
+        ],
+        "assumptions": [
+            "Byzantine stake <= f = floor((n-1)/3), committee keys distinct, 1 <= n < 2^31",
+            "a signature token of an honest signer inside a delivered message was produced by that signer (unforgeability); Byzantine signers are unconstrained",
+            "honest nodes do not lose their voting state (the code persists none; crash-recovery of a voter is outside the property's quantifier)",
+        ],
+        "explanation": "Three layers, all machine-checked: (A) abstract agreement for any history satisfying four local invariants, by weighted quorum intersection and strong induction on rounds (Proofs/Agreement.lean); "
+                       "(B) the executable node model satisfies the local invariants for ARBITRARY inputs (Inv1-Inv6, thousands of lines of step-preservation proofs); (C) the global model: any reachable state of any number of honest node models under any schedule/network/Byzantine behaviour "
+                       "satisfies agreement: any two delivered blocks at any two honest nodes are on one chain; no two different blocks at one height; one certified block per round. "
+                       "The cons engine ties the node model to the real Consensus node (0 divergences over seeded protocol runs with equivocation, replays, view changes, sync).",
+    },
 }
